@@ -186,6 +186,52 @@ def walk (theta2 gx gy gz : K) (pt : Nat) : T K → List (Visit K)
         (List.finRange 8).flatMap fun o => walk theta2 gx gy gz pt (ch o)
       else [.cell g]
 
+/-! ### tree gravity: the force sum of `reb_calculate_acceleration_for_particle_from_cell` (gravity.c, no QUADRUPOLE) -/
+
+/-- `particles[pt].ax, ay, az` -/
+structure Acc (K : Type) where
+  ax : K
+  ay : K
+  az : K
+
+/-- `_r = sqrt(r2 + softening2); prefact = -G/(_r*_r*_r)*node->m; a += prefact*d` — the same three lines serve a leaf and an
+    unopened cell; `sqrt` is a parameter (libm on doubles, any function in the theorems) -/
+def addForce (sqrt : K → K) (G soft2 : K) (a : Acc K) (dx dy dz r2 m : K) : Acc K :=
+  let r := sqrt (r2 + soft2)
+  let prefact := Scalar.neg G / (r * r * r) * m
+  { ax := a.ax + prefact * dx, ay := a.ay + prefact * dy, az := a.az + prefact * dz }
+
+/-- the walk for particle `pt` at (ghost-shifted) position `gx gy gz`, accumulating into `a`:
+    `dx = gb.x - node->mx; ...; r2 = dx*dx + dy*dy + dz*dz;` inner node: open when `w*w > opening_angle2*r2`
+    (children 0..7), else monopole; leaf: skipped when it is the particle's own, else direct term -/
+def accCell (sqrt : K → K) (G soft2 theta2 gx gy gz : K) (pt : Nat) : T K → Acc K → Acc K
+  | .nil, a => a
+  | .leaf _ g q, a =>
+      let dx := gx - g.mx
+      let dy := gy - g.my
+      let dz := gz - g.mz
+      let r2 := dx*dx + dy*dy + dz*dz
+      if q = pt then a else addForce sqrt G soft2 a dx dy dz r2 g.m
+  | .node c g _ ch, a =>
+      let dx := gx - g.mx
+      let dy := gy - g.my
+      let dz := gz - g.mz
+      let r2 := dx*dx + dy*dy + dz*dz
+      if ScalarO.lt (theta2 * r2) (c.w * c.w) then
+        (List.finRange 8).foldl (fun a o => accCell sqrt G soft2 theta2 gx gy gz pt (ch o) a) a
+      else addForce sqrt G soft2 a dx dy dz r2 g.m
+
+/-- `reb_calculate_acceleration_for_particle`: all root boxes in index order, starting from zero -/
+def accForest (sqrt : K → K) (G soft2 theta2 : K) (p : Pt K) (pt : Nat) (forest : List (T K)) : Acc K :=
+  forest.foldl (fun a t => accCell sqrt G soft2 theta2 p.x p.y p.z pt t a) ⟨Scalar.zero, Scalar.zero, Scalar.zero⟩
+
+/-- the direct pair term the walk must reproduce for particle `q` (position and mass from the particle array) -/
+def pairForce (sqrt : K → K) (G soft2 gx gy gz : K) (ps : Nat → Pt K) (a : Acc K) (q : Nat) : Acc K :=
+  let dx := gx - (ps q).x
+  let dy := gy - (ps q).y
+  let dz := gz - (ps q).z
+  addForce sqrt G soft2 a dx dy dz (dx*dx + dy*dy + dz*dz) (ps q).m
+
 /-! ### functional tree update: sweep (evict + derefine + recount), then re-insert -/
 
 /-- number of particles a child contributes to `node->pt` in the recount loop -/
